@@ -532,6 +532,111 @@ func entry() uint64 {
 	return r
 }
 `)
+	// a worker loop whose nested wait loop returns (bare return two loops deep)
+	bnd("b-nested-loop-return", true, hdr+`type Q struct {
+	mu      *sync.Mutex
+	cond    *sync.Cond
+	pending uint64
+	closed  bool
+	got     uint64
+}
+
+func (q *Q) consume(wg *sync.WaitGroup) {
+	for {
+		q.mu.Lock()
+		for q.pending == 0 {
+			if q.closed {
+				q.mu.Unlock()
+				wg.Done()
+				return
+			}
+			q.cond.Wait()
+		}
+		q.pending = q.pending - 1
+		q.got = q.got + 1
+		q.mu.Unlock()
+	}
+}
+
+func entry() uint64 {
+	mu := new(sync.Mutex)
+	q := &Q{mu: mu, cond: sync.NewCond(mu), pending: 1, closed: false, got: 0}
+	wg := new(sync.WaitGroup)
+	wg.Add(1)
+	go func() {
+		q.consume(wg)
+	}()
+	mu.Lock()
+	q.closed = true
+	q.cond.Broadcast()
+	mu.Unlock()
+	wg.Wait()
+	mu.Lock()
+	r := q.got
+	mu.Unlock()
+	return r
+}
+`)
+	// an if-initialiser whose name shadows a variable that a later goroutine captures
+	bnd("b-if-init-shadow-capture", true, hdr+fmt.Sprintf(`func entry() uint64 {
+	m := make(map[uint64]uint64)
+	m[1] = %d
+	v := new(uint64)
+	wg := new(sync.WaitGroup)
+	var r uint64 = 0
+	if v, ok := m[1]; ok {
+		r = v
+	}
+	wg.Add(1)
+	go func() {
+		*v = r + 1
+		wg.Done()
+	}()
+	wg.Wait()
+	return *v
+}
+`, v2))
+	// a labelled break out of two loops under a mutex
+	bnd("b-labelled-break", true, hdr+`func claim(mu *sync.Mutex, slots []uint64, id uint64, wg *sync.WaitGroup) {
+search:
+	for {
+		mu.Lock()
+		for i := uint64(0); i < uint64(len(slots)); i++ {
+			if slots[i] == 0 {
+				slots[i] = id
+				mu.Unlock()
+				break search
+			}
+		}
+		mu.Unlock()
+		break
+	}
+	wg.Done()
+}
+
+func entry() uint64 {
+	mu := new(sync.Mutex)
+	slots := make([]uint64, 3)
+	wg := new(sync.WaitGroup)
+	wg.Add(2)
+	go func() {
+		claim(mu, slots, 1, wg)
+	}()
+	go func() {
+		claim(mu, slots, 2, wg)
+	}()
+	wg.Wait()
+	var n uint64 = 0
+	mu.Lock()
+	for _, s := range slots {
+		if s != 0 {
+			n = n + 1
+		}
+	}
+	mu.Unlock()
+	return n
+}
+`)
 	// two waiters, one Signal each
 	add("cond-signal-each", true, hdr+fmt.Sprintf(`func waiter(m *sync.Mutex, c *sync.Cond, tokens *uint64, sum *uint64, v uint64, wg *sync.WaitGroup) {
 	m.Lock()
